@@ -121,12 +121,7 @@ impl WhereClauseBuilder {
         }
         for mut p in self.preds {
             // (the same for a predicate given through `bound(..)`: `bound(<T>::Assoc: Trait)`)
-            if let syn::WherePredicate::Type(t) = &mut p {
-                if matches!(&t.bounded_ty, Type::Path(tp) if matches!(&tp.qself, Some(q) if q.as_token.is_none())) {
-                    let ty = &t.bounded_ty;
-                    t.bounded_ty = syn::parse_quote!((#ty));
-                }
-            }
+            crate::syn_utils::paren_qself_without_trait(&mut p);
             ws.push(quote!(#p));
         }
         if ws.is_empty() {
